@@ -16,7 +16,7 @@ def run(r):
                 ("F3", 3, AB, 32, [(s + i) % 32 for i in range(6)], {}),
                 ("F1", 4, AB, 64, [(s + i) % 64 for i in range(4)], {"maxcalls": 900}),
                 ("HID2", 4, ABCD, 8, [(s + i) % 8 for i in range(3)], {}),
-                ("OPT", 3, AB, 1, [0], {})]
+                ("OPT", 3, AB, 1, [0], {}), ("HIDR", 6, AB, 1, [0], {}), ("OPTLR", 4, AB, 1, [0], {})]
         rnd = [(600, dict(maxlen=5, share=1, named=2, trees=1)), (300, dict(maxlen=6, share=1, named=0, monotone=1, seed_off=1)),
                (200, dict(maxlen=4, share=1, named=2, base=0, seed_off=2)),
                (500, dict(tmpl="share", named=0, trees=1, seed_off=5))]
@@ -26,8 +26,10 @@ def run(r):
                 ("F2", 3, AB, 24, [s % 24], {}),
                 ("NM", 3, AB, 24, [s % 24], {}),
                 ("HID2", 3, ABCD, 12, [s % 12], {}),
-                ("OPT", 3, AB, 4, [s % 4], {})]
-        rnd = [(120, dict(maxlen=5, share=1, named=2, trees=1)), (100, dict(tmpl="share", named=0, trees=1, seed_off=5))]
+                ("OPT", 3, AB, 4, [s % 4], {}),
+                ("HIDR", 5, AB, 3, [s % 3], {}),
+                ("OPTLR", 3, AB, 2, [s % 2], {})]
+        rnd = [(120, dict(maxlen=5, share=1, named=2, trees=1)), (100, dict(tmpl="share", named=0, trees=1, seed_off=5)), (60, dict(maxlen=4, share=1, named=2, trees=1, base=0, seed_off=9))]
     parsefam.run_plan(r, {"props": ["C01"], "families": fams, "random": rnd, "trees": True})
     r.rule = ("model->code: every (grammar, input) of the explored family slices, root + every memoised nonterminal at every position "
               "on the warm context, real end positions compared with Derivation!Ends and outcomes with ParsleyMachine; code->model: random "
